@@ -65,10 +65,12 @@ func VerifC47_Concurrent() {
 	c := New(4 * (overhead + 8))
 	computes := make([]int, 2)
 	fails := make([]bool, nth)
+	partial := make([]bool, nth)
 	ids := make([]int, nth)
 	for t := 0; t < nth; t++ {
 		ids[t] = verifrt.Int("tid", 0, 1)
 		fails[t] = verifrt.Bool("fail")
+		partial[t] = fails[t] && verifrt.Bool("partialBuffer")
 	}
 	var wg sync.WaitGroup
 	var mu sync.Mutex
@@ -86,6 +88,10 @@ func VerifC47_Concurrent() {
 				mu.Unlock()
 				verifrt.Yield()
 				if fails[t] {
+					if partial[t] {
+						// e.g. a truncated read: the partly filled buffer comes back together with the error
+						return []byte{0xEE}, errors.New("compute failed after a partial read")
+					}
 					return nil, errors.New("compute failed")
 				}
 				return []byte{byte(k + 1), 7}, nil
@@ -108,6 +114,12 @@ func VerifC47_Concurrent() {
 	if !anyFail {
 		verifrt.Assert(computes[0] <= 1 && computes[1] <= 1, "a blob was computed more than once although every computation succeeded and fits the cache")
 		verifrt.Reach("all-succeeded")
+	}
+	// whatever is cached afterwards is a successfully computed value of its ID
+	for k := 0; k < 2; k++ {
+		if b, ok := c.get(verifC47ID(k)); ok {
+			verifrt.Assert(len(b) == 2 && b[0] == byte(k+1), "the cache holds the buffer of a failed computation")
+		}
 	}
 	verifC47CheckBudget(c, 2)
 	verifrt.Reach("concurrent-done")
